@@ -42,6 +42,8 @@ def one(name, tier):
             viol = [l for l in r.stdout.split("\n") if l.startswith("VIOLATION")]
             why = [l for l in r.stdout.split("\n") if l.startswith("# ")]
             res["checks"][p] = {"exit": r.returncode, "violations": viol, "why": why[:3]}
+            if r.returncode not in (0, 1):
+                res["checks"][p]["tail"] = r.stdout[-1500:]
     finally:
         run(["git", "-C", "/repo", "worktree", "remove", "--force", wt])
         shutil.rmtree(wt, ignore_errors=True)
